@@ -102,6 +102,17 @@ def pick_items(lst, tables, rng, rich):
         rows = sorted(set([0, nrows - 1, rng.randrange(nrows)]))
         if not rich:
             rows = [rng.choice(rows)]
+        # rows printed more than once (TOUGH2_MP prints the rows shared between processes twice): the line a row is read from
+        # is then out of sequence with its neighbours'
+        if getattr(lst, "simulator", "") == "TOUGH2_MP" and nrows > 300:
+            rows = sorted(set(rows + rng.sample(range(nrows), 200)))      # parallel runs print shared rows twice, sometimes with other values
+        rl = getattr(tab, "row_line", None)
+        if rl is not None and len(rl) == nrows and nrows > 2:
+            odd = [r for r in range(1, nrows) if rl[r] != rl[r - 1] + 1 and rl[r] - rl[r - 1] not in (2, 3, 4, 5)]
+            if odd:
+                # one history call serves any number of rows: take many where the table is printed out of sequence (chosen
+                # uniformly, not through row_line, which is itself under test)
+                rows = sorted(set(rows + (rng.sample(range(nrows), min(nrows, 200)) if len(odd) > 50 else rng.sample(odd, min(len(odd), 6 if rich else 3)))))
         cols = [tab.column_name[0], tab.column_name[-1], rng.choice(tab.column_name)]
         for r in rows:
             mode = rng.choice(["name", "name", "int", "rev"])
